@@ -247,13 +247,14 @@ package actions
 // maps a database unique-violation to true (driver specific; racing creates are decided by the unique index)
 //@ func isSqlDuplicateKeyError(err) (result)
 //@   trusted
-//@   ensures result ==> err != nil
+//@   ensures result ==> err != nil && isconstraint(err)
 
 //@ func findTopic(ctx, tx, name) (topic, err)
 //@   property C12
 //@   uses tables
 //@   requires tx != nil
 //@   ensures found: err == nil ==> topic != nil && topic_named(topic.ID, name)
+//@   ensures not_exists_error: err != ErrExists
 //@   ensures missing: err == ErrNotFound ==> (forall t Id :: !topic_named(t, name))
 //@   ensures no_swallowed_failure: [C09] dbfailed() && !old(dbfailed()) ==> err != nil
 //@   modifies S:dbfailed
@@ -261,14 +262,15 @@ package actions
 //@ func (*CreateTopic).Execute(a, ctx, tx) (err)
 //@   property C12
 //@   uses tables notifyspec
-//@   requires a != nil && tx != nil && unique_topic_names()
+//@   requires a != nil && tx != nil && unique_topic_names() && topics_wf()
 //@   ensures created: err == nil ==> a.results != nil && (forall x Id :: x == a.results.ID ==> !old(topics.exists(x)) && topic_named(x, a.params.Name))
 //@   ensures was_free: err == nil ==> (forall t Id :: !old(topic_named(t, a.params.Name)))
 //@   ensures labels_stored: [C17] err == nil ==> topics.labels(a.results.ID) == a.params.Labels && !topics.labels$null(a.results.ID)
 //@   ensures already_exists: (exists t Id :: old(topic_named(t, a.params.Name))) ==> err != nil && (err == ErrExists || dbfailed())
+//@   ensures refused_only_if_taken: err != nil ==> dbfailed() || (err == ErrExists && (exists t Id :: old(topic_named(t, a.params.Name))))
 //@   ensures others_untouched: forall t Id :: old(topics.exists(t)) ==> topic_unchanged(t)
 //@   ensures only_one_row: forall t Id :: !old(topics.exists(t)) && topics.exists(t) ==> err == nil && t == a.results.ID
-//@   ensures still_unique: err == nil ==> unique_topic_names()
+//@   ensures still_unique: err == nil ==> unique_topic_names() && topics_wf()
 //@   ensures no_swallowed_failure: [C09] dbfailed() && !old(dbfailed()) ==> err != nil
 //@   modifies T:topics:*, S:dbfailed, S:wake_on_commit, F:actions.CreateTopic:*, F:actions.createTopicResults:*, F:actions.actionTimer:*
 
@@ -278,6 +280,7 @@ package actions
 //@   requires a != nil && tx != nil
 //@   ensures deleted: err == nil ==> (forall t Id :: !topic_named(t, a.params.Name)) && (exists t Id :: old(topic_named(t, a.params.Name)))
 //@   ensures missing: (forall t Id :: !old(topic_named(t, a.params.Name))) ==> err != nil && (err == ErrNotFound || dbfailed())
+//@   ensures fails_only_for_cause: err != nil ==> dbfailed() || (err == ErrNotFound && (forall t Id :: !old(topic_named(t, a.params.Name))))
 //@   ensures others_untouched: err == nil ==> (forall t Id :: !old(topic_named(t, a.params.Name)) ==> topic_unchanged(t))
 //@   ensures rows_stay: forall t Id :: topics.exists(t) == old(topics.exists(t)) && topics.name(t) == old(topics.name(t))
 //@   ensures snapshots_dropped: err == nil ==> (forall n Id :: snapshots.exists(n) ==> old(snapshots.exists(n)) && !old(topic_named(snapshots.topic_id(n), a.params.Name))) &&
@@ -294,6 +297,7 @@ package actions
 //@   requires a != nil && tx != nil
 //@   ensures deleted: err == nil ==> (forall s Id :: !sub_named(s, a.params.Name)) && (exists s Id :: old(sub_named(s, a.params.Name)))
 //@   ensures missing: (forall s Id :: !old(sub_named(s, a.params.Name))) ==> err != nil && (err == ErrNotFound || dbfailed())
+//@   ensures fails_only_for_cause: err != nil ==> dbfailed() || (err == ErrNotFound && (forall s Id :: !old(sub_named(s, a.params.Name))))
 //@   ensures others_untouched: err == nil ==> (forall s Id :: !old(sub_named(s, a.params.Name)) ==> subscription_unchanged(s))
 //@   ensures rows_stay: forall s Id :: subscriptions.exists(s) == old(subscriptions.exists(s)) && subscriptions.name(s) == old(subscriptions.name(s))
 //@   ensures wakes: [C10] err == nil ==> (forall s Id :: old(sub_named(s, a.params.Name)) ==> wake_on_commit(s))
@@ -310,13 +314,14 @@ package actions
 //@ func (*CreateSubscription).Execute(a, ctx, tx) (err)
 //@   property C12
 //@   uses tables notifyspec
-//@   requires a != nil && tx != nil && unique_sub_names()
+//@   requires a != nil && tx != nil && unique_sub_names() && subs_wf()
 //@   ensures created: err == nil ==> a.results != nil && (forall x Id :: x == a.results.ID ==> !old(subscriptions.exists(x)) && sub_named(x, a.params.Name))
 //@   ensures was_free: err == nil ==> (forall s Id :: !old(sub_named(s, a.params.Name)))
 //@   ensures already_exists: (exists s Id :: old(sub_named(s, a.params.Name))) ==> err != nil && (err == ErrExists || dbfailed())
+//@   ensures exists_only_if_taken: err == ErrExists ==> (exists s Id :: old(sub_named(s, a.params.Name)))
 //@   ensures others_untouched: forall s Id :: old(subscriptions.exists(s)) ==> subscription_unchanged(s)
 //@   ensures only_one_row: forall s Id :: !old(subscriptions.exists(s)) && subscriptions.exists(s) ==> err == nil && s == a.results.ID
-//@   ensures still_unique: err == nil ==> unique_sub_names()
+//@   ensures still_unique: err == nil ==> unique_sub_names() && subs_wf()
 //@   ensures topic_resolved: err == nil ==> topic_named(subscriptions.topic_id(a.results.ID), a.params.TopicName) && a.results.TopicID == subscriptions.topic_id(a.results.ID)
 //@   ensures config_stored: [C17] err == nil ==> (forall x Id :: x == a.results.ID ==>
 //@             subscriptions.ttl(x) == a.params.TTL && subscriptions.message_ttl(x) == a.params.MessageTTL &&
